@@ -50,6 +50,10 @@ func TestVerif(t *testing.T) {
 				vmodel.CheckSetsLong(c, api, func(i int) int { return (i - 200) * 7 } /* negative, zero and positive elements, increasing */)
 				return
 			}
+			if c.Param("family", "") == "histories" {
+				vmodel.CheckSetHistories(c, api)
+				return
+			}
 			vmodel.CheckSets(c, api)
 		},
 	})
